@@ -280,24 +280,33 @@ class Parser:
             number = token
             if self.current().kind == TokenKind.RBRACE:
                 self.pos += 1
-                return RepeatExact(expr, int(number.value))
+                return RepeatExact(expr, self.parse_number(number))
 
             self.eat(TokenKind.COMMA)
 
             if self.current().kind == TokenKind.RBRACE:
                 self.pos += 1
-                return RepeatMin(expr, int(number.value))
+                return RepeatMin(expr, self.parse_number(number))
 
             stop = self.eat(TokenKind.NUMBER)
             self.eat(TokenKind.RBRACE)
-            return RepeatMinMax(expr, int(number.value), int(stop.value))
+            return RepeatMinMax(
+                expr, self.parse_number(number), self.parse_number(stop)
+            )
 
         if kind == TokenKind.COMMA:
             number = self.eat(TokenKind.NUMBER)
             self.eat(TokenKind.RBRACE)
-            return RepeatMax(expr, int(number.value))
+            return RepeatMax(expr, self.parse_number(number))
 
         raise PestGrammarSyntaxError("expected a number or a comma", token=token)
+
+    def parse_number(self, token: Token) -> int:
+        try:
+            return int(token.value)
+        except ValueError as err:
+            # Python limits the number of digits it converts.
+            raise PestGrammarSyntaxError("number is too large", token=token) from err
 
     def parse_peek_expression(self, tag: str | None) -> Expression:
         if self.current().kind != TokenKind.LBRACKET:
@@ -305,6 +314,7 @@ class Parser:
 
         self.eat(TokenKind.LBRACKET)
         if self.current().kind == TokenKind.INTEGER:
+            self.parse_number(self.current())
             start: str | None = self.next().value
         else:
             start = None
@@ -312,6 +322,7 @@ class Parser:
         self.eat(TokenKind.RANGE_OP)
 
         if self.current().kind == TokenKind.INTEGER:
+            self.parse_number(self.current())
             stop: str | None = self.next().value
         else:
             stop = None
